@@ -106,7 +106,7 @@ def heap_groups(ctx, sc_dir):
     for i in list(range(-2, 13)): one('radi %d' % i)
     for z in range(-2, 125): one('z2s %d' % z)
     for _ in range(3): one('nistl'); one('radl'); one('clist')
-    for k in range(6): one('err %d' % k)
+    for k in range(12): one('err %d' % k)
     # compound cross sections and refractive indices: every function x compound x energies incl. both table ends
     nE = len(Es) if thorough else 8
     for c in comps:
@@ -142,9 +142,9 @@ def heap_groups(ctx, sc_dir):
         if drop is not None: e = e[:drop]
         return ''.join(e)
     files = []
-    for i in range(6 if not thorough else 40):
+    for i in range(9 if not thorough else 45):
         a, b, c = r.sample(names, 3)
-        kind = i % 8
+        kind = i % 9
         if kind == 0: files.append(mkfile('ok%d' % i, [entry(a, 'N%da' % i), entry(b, 'N%db' % i), '#EOF\n']))
         elif kind == 1: files.append(mkfile('dup%d' % i, [entry(a, 'D%d' % i), entry(b, 'E%d' % i), entry(c, 'D%d' % i), '#EOF\n']))
         elif kind == 2: files.append(mkfile('adj%d' % i, [entry(a, 'D%d' % i), entry(a, 'D%d' % i), '#EOF\n']))
@@ -152,6 +152,10 @@ def heap_groups(ctx, sc_dir):
         elif kind == 4: files.append(mkfile('trunc%d' % i, [entry(a, 'T%da' % i), entry(b, 'T%db' % i, drop=r.randrange(1, 12))]))
         elif kind == 5: files.append(mkfile('garb%d' % i, ['#S x y\n', 'garbage\n' * 5]))
         elif kind == 6: files.append(mkfile('empty%d' % i, []))
+        elif kind == 8:
+            # a section whose #L line is followed directly by the next #S: a crystal with zero atoms
+            e = list(dict(ents)[a]); k = next(j for j, x in enumerate(e) if x.startswith('#L')) + 1
+            files.append(mkfile('noatoms%d' % i, ['#S 1 Z%da\n' % i] + e[1:k] + [entry(b, 'Z%db' % i), '#EOF\n']))
         else: files.append(mkfile('many%d' % i, [entry(r.choice(names), 'M%d_%d' % (i, j)) for j in range(25)] + ['#EOF\n']))
     files.append(os.path.join(sc_dir, 'does-not-exist.dat'))
     for h in range(12 if not thorough else 120):
@@ -160,7 +164,7 @@ def heap_groups(ctx, sc_dir):
             k = r.random()
             if k < 0.45: g.append('aadd %s %s' % (esc(r.choice(names)), esc(r.choice(['Pre', 'A%d' % r.randrange(40), r.choice(names)]))))
             elif k < 0.7: g.append('aread ' + esc(r.choice(files)))
-            elif k < 0.85: g.append('aget ' + esc(r.choice(['Pre', 'A%d' % r.randrange(40), 'nope', r.choice(names)])))
+            elif k < 0.85: g.append('aget ' + esc(r.choice(['Pre', 'A%d' % r.randrange(40), 'nope', 'Z8a', 'Z8b', r.choice(names)])))
             else: g.append('alist')
         g.append('afree')
         groups.append(g)
